@@ -92,7 +92,7 @@ def h05b(n: int, data: bytes, pick: int, b0: int, b1: int, relname: bool, use_or
         elif kind[0] == "opaque":
             rd = rd0.replace(**{field: OPAQUE_POOL[pick]})
         else:
-            labels = [bytes([b0]), bytes([b1])]
+            labels = [bytes([b0]), bytes([b1])][:S("nlab") or 2]
             if relname:
                 if origin is None:
                     return True
@@ -126,6 +126,8 @@ def h05b_pre(n, data, pick, b0, b1, relname, use_origin, relativize):
         return z[0] and len(data) <= S("slen") and z[2] and z[3]
     if kind[0] == "opaque":
         return z[0] and z[1] and 0 <= pick < len(OPAQUE_POOL) and z[3]
+    if S("nlab") == 1 and b1 != 0:
+        return False
     return z[0] and z[1] and z[2] and 0 <= b0 <= 255 and 0 <= b1 <= 255
 
 
@@ -145,8 +147,9 @@ def h05b_shards(tier):
                 kind = field_kind(rd0, field)
                 if kind is None:
                     continue
-                out.append({"c": c, "t": t, "name": name, "field": field, "kind": kind, "slen": 2 if tier == "quick" else 3,
-                            "_timeout": 400 if tier == "quick" else 1800, "_path_timeout": 60})
+                for nlab in ((1, 2) if kind[0] == "name" else (2,)):
+                    out.append({"c": c, "t": t, "name": name, "field": field, "kind": kind, "slen": 2 if tier == "quick" else 3, "nlab": nlab,
+                                "_timeout": 400 if tier == "quick" else 1800, "_path_timeout": 60})
     return out
 
 
@@ -273,7 +276,7 @@ HARNESSES = [
     Harness("H05b", h05b, h05b_pre, h05b_shards, kind="universal (ints, character-strings, names); finite selection for base64 / hex fields",
             encodes=["dns.rdata.from_text", "dns.rdata.Rdata.to_text", "dns.rdata._escapify", "dns.tokenizer.Tokenizer.get", "dns.tokenizer.Token.unescape",
                      "dns.tokenizer.Token.unescape_to_bytes", "dns.rdata._styled_base64ify", "dns.rdata._styled_hexify", "dns.name.Name.to_text", "dns.name.from_text"],
-            bound="for every specimen and every int / bytes / Name field: ints over the field's whole unsigned range, character-strings of <= 2 (3) fully symbolic octets, names of two symbolic one-octet labels (relative or under example.), base64/hex fields from a pool of 10 octet strings; origin and relativize symbolic",
+            bound="for every specimen and every int / bytes / Name field: ints over the field's whole unsigned range, character-strings of <= 2 (3) fully symbolic octets, names of one or two symbolic one-octet labels (relative or under example.), base64/hex fields from a pool of 10 octet strings; origin and relativize symbolic",
             stubs=["E2", "E3", "E4", "E5", "E6"], outside="longer strings; list-valued fields; IPv6 / float text (H05d pools)"),
     Harness("H05c", h05c, h05c_pre, h05c_shards, kind="finite selection",
             encodes=["dns.rdata.Rdata.to_generic", "dns.rdata.GenericRdata.to_styled_text", "dns.rdata.from_text", "dns.rdata.GenericRdata.from_text"],
